@@ -154,29 +154,36 @@ theorem block_atFail (name : Nat) (b : Body) (st : St) (h : st.halted = false) (
 
 theorem collectBody_tokensOf (rest : List Block) : collectBody (tokensOf rest) = ([], tokensOf rest) := by
   cases rest with
-  | nil => simp [tokensOf, collectBody]
-  | cons b rest =>
+  | nil => simp [tokensOf, collectBody, collect]
+  | cons b rest => simp [tokensOf, Block.toks, collectBody, collect]
+
+/-- no generated block carries the marker of a directive whose marker is missing -/
+theorem hasMark_tokensOf (k : Nat) (rest : List Block) : hasMark (2 * k) (tokensOf rest) = false := by
+  induction rest with
+  | nil => simp [tokensOf, hasMark]
+  | cons b rest ih =>
+    have ih' : hasMark (2 * k) (List.flatMap Block.toks rest) = false := ih
+    have hne : (2 * b.name + 1 == 2 * k) = false := by
+      simp only [beq_eq_false_iff_ne, ne_eq]; omega
     obtain ⟨name, body, brace⟩ := b
     match brace with
-    | 0 => simp [tokensOf, Block.toks, collectBody]
-    | 1 => simp [tokensOf, Block.toks, collectBody]
-    | n + 2 => simp [tokensOf, Block.toks, collectBody]
+    | 0 | 1 | 2 | 3 | 4 | 6 => simp [tokensOf, Block.toks, hasMark, ih']
+    | 5 => simpa [tokensOf, Block.toks, hasMark, ih'] using hne
+    | n + 7 => simpa [tokensOf, Block.toks, hasMark, ih'] using hne
 
 theorem collectBody_block (b : Block) (rest : List Block) :
     collectBody (b.toks.tail ++ tokensOf rest) = (b.toks.tail, tokensOf rest) := by
-  have h := collectBody_tokensOf rest
+  have h : collect none (tokensOf rest) = ([], tokensOf rest) := collectBody_tokensOf rest
+  have hm := hasMark_tokensOf b.name rest
   obtain ⟨name, body, brace⟩ := b
   match brace with
-  | 0 => simp [Block.toks, collectBody, h]
-  | 1 => simp [Block.toks, collectBody, h]
-  | n + 2 => simp [Block.toks, collectBody, h]
+  | 0 | 1 | 2 | 3 => simp [Block.toks, collectBody, collect, h]
+  | 4 | 6 => simp [Block.toks, collectBody, collect, hasMark, h, hm]
+  | 5 => simp [Block.toks, collectBody, collect, hasMark, h]
+  | n + 7 => simp [Block.toks, collectBody, collect, hasMark, h]
 
 theorem toks_head (b : Block) : b.toks = Tok.test b.name :: b.toks.tail := by
-  obtain ⟨name, body, brace⟩ := b
-  match brace with
-  | 0 => simp [Block.toks]
-  | 1 => simp [Block.toks]
-  | n + 2 => simp [Block.toks]
+  simp [Block.toks]
 
 /-- the split finds every generated block, whatever its braces look like -/
 theorem C13_split_every_test (blocks : List Block) (fuel : Nat) (hf : (tokensOf blocks).length ≤ fuel) :
@@ -199,9 +206,9 @@ theorem compileBody_block (b : Block) :
     compileBody b.toks.tail = if b.eff = Outcome.compileErr then none else some b.body := by
   obtain ⟨name, body, brace⟩ := b
   match brace with
-  | 0 => simp [Block.toks, compileBody, balanced, firstStmt, Block.eff]
-  | 1 => simp [Block.toks, compileBody, balanced, Block.eff]
-  | n + 2 => simp [Block.toks, compileBody, balanced, Block.eff]
+  | 0 | 3 | 5 => simp [Block.toks, compileBody, stripSpans, balanced, firstStmt, Block.eff, Block.damaged]
+  | 1 | 2 | 4 | 6 => simp [Block.toks, compileBody, stripSpans, balanced, Block.eff, Block.damaged]
+  | n + 7 => simp [Block.toks, compileBody, stripSpans, balanced, firstStmt, Block.eff, Block.damaged]
 
 theorem eff_body (b : Block) (h : b.eff ≠ Outcome.compileErr) : b.body.outcome = b.eff := by
   unfold Block.eff at h ⊢
@@ -376,5 +383,140 @@ def blockCodeOld (name : Nat) (b : Body) : List Instr :=
 theorem C13_fail_line_old_counterexample :
     (exec (blockCodeOld 1 ⟨0, [], Outcome.assertFail⟩) 13 0 init).out = [] ∧
     (exec (blockCode 1 (some ⟨0, [], Outcome.assertFail⟩)) 14 0 init).out = [(1, Verdict.FAIL)] := by decide
+
+
+/-! ### `@compile eof=` spans at the split (fixes/C13-3.patch) -/
+
+/-- a directive whose marker is nowhere in the rest of the file does not change where the body ends:
+    the body is collected exactly as if the directive were an ordinary token -/
+theorem C13_eof_missing_marker_plain (m : Nat) (rest : List Tok) (h : hasMark m rest = false) :
+    collectBody (Tok.eofOpen m :: rest) = ((Tok.eofOpen m :: (collectBody rest).1), (collectBody rest).2) := by
+  simp [collectBody, collect, h]
+
+/-- outside a span every `@test` is a boundary: a body never reaches past an `@test` unless an
+    `@compile eof=` directive of the body has its marker beyond it -/
+theorem C13_eof_no_span_stops_at_test (pre : List Tok) (n : Nat) (rest : List Tok)
+    (hp : ∀ t ∈ pre, (∀ k, t ≠ Tok.test k) ∧ (∀ m, t ≠ Tok.eofOpen m)) :
+    collectBody (pre ++ Tok.test n :: rest) = (pre, Tok.test n :: rest) := by
+  induction pre with
+  | nil => simp [collectBody, collect]
+  | cons t pre ih =>
+    have ih' := ih (fun t' ht' => hp t' (List.mem_cons_of_mem _ ht'))
+    have ht := hp t (List.mem_cons_self)
+    unfold collectBody at ih' ⊢
+    cases t with
+    | test k => exact absurd rfl (ht.1 k)
+    | eofOpen m => exact absurd rfl (ht.2 m)
+    | «open» => simp [collect, ih']
+    | close => simp [collect, ih']
+    | stmt b => simp [collect, ih']
+    | eofMark k => simp [collect, ih']
+
+example : hasMark 4 [Tok.stmt ⟨0, [], Outcome.pass⟩, Tok.close, Tok.test 3, Tok.open, Tok.close] = false := by decide
+
+/-- before fixes/C13-3.patch: an `@compile eof=` directive whose marker is missing swallows every test
+    after it (with the fix the second test is still there) -/
+theorem C13_eof_marker_old_counterexample :
+    (collectEofOld none ([Tok.open, Tok.eofOpen 4, Tok.stmt ⟨0, [], Outcome.pass⟩, Tok.close] ++
+        [Tok.test 3, Tok.open, Tok.stmt ⟨0, [], Outcome.pass⟩, Tok.close])).2 = [] ∧
+    (collectBody ([Tok.open, Tok.eofOpen 4, Tok.stmt ⟨0, [], Outcome.pass⟩, Tok.close] ++
+        [Tok.test 3, Tok.open, Tok.stmt ⟨0, [], Outcome.pass⟩, Tok.close])).2
+      = [Tok.test 3, Tok.open, Tok.stmt ⟨0, [], Outcome.pass⟩, Tok.close] := by decide
+
+/-- the new shapes are exercised: bare statements, a missing marker, an unbalanced span that ends at its marker -/
+def exBlocks2 : List Block :=
+  [ { name := 1, body := { junk := 0, leak := [], outcome := Outcome.pass }, brace := 3 },
+    { name := 2, body := { junk := 0, leak := [], outcome := Outcome.pass }, brace := 4 },
+    { name := 3, body := { junk := 1, leak := [7], outcome := Outcome.runtimeErr }, brace := 3 },
+    { name := 4, body := { junk := 0, leak := [], outcome := Outcome.pass }, brace := 6 },
+    { name := 5, body := { junk := 0, leak := [], outcome := Outcome.pass }, brace := 5 },
+    { name := 6, body := { junk := 0, leak := [], outcome := Outcome.assertFail }, brace := 7 },
+    { name := 7, body := { junk := 0, leak := [], outcome := Outcome.pass }, brace := 0 } ]
+
+example : (runTests exBlocks2).out =
+    [(1, Verdict.PASS), (2, Verdict.FAIL), (3, Verdict.FAIL), (4, Verdict.FAIL), (5, Verdict.PASS), (6, Verdict.FAIL),
+     (7, Verdict.PASS)] := by
+  rw [C13_isolated]; decide
+
+/-! ### the file scope shared with the clones (fixes/C13-2.patch) -/
+
+theorem any_define (u : Usage) (n k : Nat) (h : u.any (fun p => p.1 == k) = true) :
+    (define u n).any (fun p => p.1 == k) = true := by
+  unfold define; split <;> simp_all
+
+theorem any_reference (u : Usage) (n k : Nat) :
+    (reference u n).any (fun p => p.1 == k) = u.any (fun p => p.1 == k) := by
+  unfold reference
+  induction u with
+  | nil => simp
+  | cons p u ih => by_cases hp : p.1 = n <;> simp_all
+
+/-- the invariant of compiling a body: a name that is "not read yet" and was not so before the body
+    is a name the scope did not hold before the body; names are never removed -/
+theorem applyEvs_inv (u0 : Usage) (evs : List ScopeEv) (u : Usage)
+    (h1 : ∀ p ∈ u, p.2 = true → u0.any (fun q => q.1 == p.1) = false)
+    (h2 : ∀ q ∈ u0, u.any (fun p => p.1 == q.1) = true) :
+    ∀ p ∈ applyEvs u evs, p.2 = true → u0.any (fun q => q.1 == p.1) = false := by
+  induction evs generalizing u with
+  | nil => simpa [applyEvs] using h1
+  | cons e evs ih =>
+    cases e with
+    | decl n =>
+      apply ih (define u n)
+      · intro p hp hpt
+        unfold define at hp
+        split at hp
+        · exact h1 p hp hpt
+        · rename_i hn
+          rcases List.mem_cons.1 hp with rfl | hp
+          · cases hq : u0.any (fun q => q.1 == n) with
+            | false => simp
+            | true =>
+              obtain ⟨q, hq1, hq2⟩ := List.any_eq_true.1 hq
+              have := h2 q hq1
+              have hqn : q.1 = n := by simpa using hq2
+              rw [hqn] at this
+              exact absurd this hn
+          · exact h1 p hp hpt
+      · intro q hq; exact any_define u n q.1 (h2 q hq)
+    | use n =>
+      apply ih (reference u n)
+      · intro p hp hpt
+        unfold reference at hp
+        obtain ⟨p', hp', rfl⟩ := List.mem_map.1 hp
+        by_cases hn : p'.1 = n
+        · simp [hn] at hpt
+        · simp only [hn, if_false] at hpt ⊢; exact h1 p' hp' hpt
+      · intro q hq; rw [any_reference]; exact h2 q hq
+
+/-- a body that fails to compile cannot make the FILE fail to compile: whatever it declared and
+    read before it stopped, the scope it leaves behind has no unread name if it had none before
+    (so the unused-variable check at the end of the file cannot take the other tests down with it) -/
+theorem C13_failed_body_keeps_file_compiling (u : Usage) (evs : List ScopeEv) (h : fileCompiles u = true) :
+    fileCompiles (afterBody u evs true) = true := by
+  have inv := applyEvs_inv u evs u
+    (fun p hp hpt => by
+      have := (List.all_eq_true.1 h) p hp
+      simp [hpt] at this)
+    (fun q hq => List.any_eq_true.2 ⟨q, hq, by simp⟩)
+  unfold fileCompiles afterBody
+  simp only [if_true]
+  apply List.all_eq_true.2
+  intro p hp
+  obtain ⟨hp1, hp2⟩ := List.mem_filter.1 hp
+  cases hpt : p.2 with
+  | false => rfl
+  | true => rw [inv p hp1 hpt] at hp2; cases hp2
+
+/-- the names of the scope and what is known about them before the body are still there afterwards
+    (the repair removes only what the failed body added) -/
+example : afterBody [(9, false)] [ScopeEv.decl 5, ScopeEv.use 9, ScopeEv.decl 6, ScopeEv.use 6] true = [(9, false)] := by decide
+example : afterBody [(9, false)] [ScopeEv.decl 5, ScopeEv.use 5] false = [(5, false), (9, false)] := by decide
+
+/-- before fixes/C13-2.patch: `y := 5` followed by a statement that does not compile, written without
+    braces after `@test`, leaves `y` unread in the file scope: the file does not compile, no test runs -/
+theorem C13_scope_leak_old_counterexample :
+    fileCompiles [] = true ∧ fileCompiles (afterBodyOld [] [ScopeEv.decl 5] true) = false ∧
+    fileCompiles (afterBody [] [ScopeEv.decl 5] true) = true := by decide
 
 end EgoVerif.C13
